@@ -8,6 +8,8 @@ pub mod oracles_stream;
 pub mod oracles_trace;
 #[cfg(feature = "writers")]
 pub mod pipelines;
+#[cfg(all(feature = "writers", target_os = "linux"))]
+pub mod pty;
 #[cfg(feature = "writers")]
 pub mod pure;
 #[cfg(feature = "writers")]
